@@ -225,7 +225,7 @@ fn msg_cfg(p: &mut Planner) -> Value {
 }
 
 fn gen_reframe(ctx: &GenCtx) -> Vec<Value> {
-    let n = ctx.n(100_000, 2_500_000);
+    let n = ctx.n(100_000, 1_500_000);
     let names: Vec<&str> = keys::pool().iter().map(|k| k.name).collect();
     (0..n)
         .map(|i| {
@@ -433,7 +433,7 @@ fn run_reframe(plan: &Value, rec: &mut Rec) {
 // ------------------------------------------------------------------ illegal framings
 
 fn gen_illegal(ctx: &GenCtx) -> Vec<Value> {
-    let n = ctx.n(80_000, 2_000_000);
+    let n = ctx.n(80_000, 1_200_000);
     (0..n)
         .map(|i| {
             let mut p = Planner::new(ctx.seed, "c17.illegal", i as u64);
@@ -548,7 +548,7 @@ fn run_illegal(plan: &Value, rec: &mut Rec) {
 // ------------------------------------------------------------------ writer side: sink monitor
 
 fn gen_written(ctx: &GenCtx) -> Vec<Value> {
-    let n = ctx.n(100_000, 2_500_000);
+    let n = ctx.n(100_000, 1_500_000);
     let thorough = ctx.tier == Tier::Thorough;
     let mut plans: Vec<Value> = Vec::new();
     // lengths on both sides of the 1-/2-/5-octet length encodings (191|192, 8383|8384): every payload length
